@@ -118,4 +118,5 @@ def main():
     print(c, len(qs), calls, ents, Counter((v[0], v[1]) for v in viol))
 
 
-main()
+if __name__ == "__main__":
+    main()
